@@ -8,3 +8,5 @@ import (
 )
 
 func nodeGlobal() sdk.Dec { return nodekeeper.VerifSharesBeforeModified() }
+
+func resetGlobals() { nodekeeper.VerifResetGlobals() }
